@@ -17,6 +17,9 @@ package channeldb
 //@   site call AddFwdPkg: assert arg(2) == fwdPkg && ret(putRevocationLog) == nil
 //@   site call serializeLogUpdates nth 0: assert arg(1) == validUpdates
 //@   site call serializeLogUpdates nth 1: assert arg(1) == updates
+//@   // whenever the transition commits, the local updates the peer has not signed yet are written (finding F15: on a
+//@   // channel that never revoked the key of the OTHER list is absent and the closure returned before writing them)
+//@   ensures result == nil ==> called(serializeLogUpdates, 1) && called(Put, 1)
 //@
 //@ func (p *ChannelPackager) AckAddHtlcs
 //@   props C08
